@@ -26,6 +26,7 @@ type Obligation struct {
 	Goal   *Term
 	Cut    int // number of log items that precede the obligation
 	Clause string
+	Assumed bool // assert-then-assume: later obligations of the same function rely on it
 	vc     *FnVC
 	// filled by the solver stage
 	Result  string // unsat | sat | unknown | timeout | error
@@ -125,7 +126,7 @@ func (vc *FnVC) oblige(name, kind string, props []string, pos string, guard, goa
 		// property the function is listed for
 		props = append(append([]string{}, vc.ct.Props...), vc.ct.SafetyProps...)
 	}
-	ob := &Obligation{Name: full, Fn: vc.fnName(), Kind: kind, Props: props, Pos: pos, Guard: guard, Goal: goal, Cut: len(vc.log), Clause: clause, vc: vc}
+	ob := &Obligation{Name: full, Fn: vc.fnName(), Kind: kind, Props: props, Pos: pos, Guard: guard, Goal: goal, Cut: len(vc.log), Clause: clause, vc: vc, Assumed: true}
 	vc.obs = append(vc.obs, ob)
 	// assert-then-assume: the execution only continues if the condition held
 	vc.assume(Implies(guard, goal))
@@ -1377,6 +1378,7 @@ func (vc *FnVC) obligeNoAssume(name, kind string, props []string, pos string, gu
 	n := len(vc.log)
 	vc.oblige(name, kind, props, pos, guard, goal, clause)
 	vc.log = vc.log[:n]
+	vc.obs[len(vc.obs)-1].Assumed = false
 }
 
 // resolveIter maps a source-level local name to its value in the iteration that ends at latch terminator `at`:
